@@ -520,6 +520,13 @@ class BitEval:
         if r is not None:
             return r
         if k == "ite":
+            # x = A; if p: x |= c   is   A | (c if p else 0): factor the common operand out instead of splitting on p
+            a_, b_ = strip(t[2]), strip(t[3])
+            for hi_, lo_, flip in ((a_, b_, False), (b_, a_, True)):
+                if hi_[0] == "bin" and hi_[1] in ("|", "+") and (strip(hi_[2]) == lo_ or strip(hi_[3]) == lo_):
+                    extra = hi_[3] if strip(hi_[2]) == lo_ else hi_[2]
+                    gated = ("ite", t[1], ("const", 0), extra) if flip else ("ite", t[1], extra, ("const", 0))
+                    return self.ev(("bin", hi_[1], lo_, gated))
             c = self.truth(self.ev(t[1]))
             if isinstance(c, bool):
                 return self.ev(t[2] if c else t[3])
